@@ -392,7 +392,8 @@ def raw_guards(repo: Repo, rep, P: str, rule: str):
     """Whatever Module.set_raw applies to the *stored* value before decoding it (a validator) accepts every stored value
     that to_raw_value can produce for a value of the range — otherwise set_raw(get_raw(v)) fails for in-range v."""
     mod = repo.cls("Module", module="rv.modules.module")
-    fn = repo.own_method(mod, "set_raw")
+    from .. import inline
+    fn = inline.normalize(repo, mod, repo.own_method(mod, "set_raw"))
     rel = mod.file.rel
     con = f"{rel}:Module.set_raw"
     params = [a.arg for a in fn.args.args if a.arg != "self"]
